@@ -282,7 +282,8 @@ func (w *Worker) external(fn *ssa.Function, args []Value) (Value, bool) {
 		switch fn.Name() {
 		case "GOMAXPROCS":
 			w.stats.Stubs["runtime.GOMAXPROCS returns an arbitrary value >= 1"]++
-			v := w.declareInput("env.GOMAXPROCS", BVSort(64), "int")
+			w.gmpSeq++
+			v := w.declareInput(fmt.Sprintf("env.GOMAXPROCS#%d", w.gmpSeq), BVSort(64), "int")
 			w.assume(tt.And(tt.BVSle(tt.BV(64, 1), v), tt.BVSle(v, tt.BV(64, 64))))
 			return v, true
 		case "KeepAlive", "Gosched", "GC":
@@ -291,6 +292,13 @@ func (w *Worker) external(fn *ssa.Function, args []Value) (Value, bool) {
 	case "os":
 		panic(unsupported("os function %s", name))
 	case "reflect":
+		if fn.Name() == "TypeOf" && fn.Signature.Recv() == nil {
+			iv := args[0].(IfaceV)
+			if iv.T != nil {
+				w.stats.Stubs["reflect.TypeOf(x) modelled for Size()/String() only"]++
+				return IfaceV{T: rtypeModelType, V: rtypeHolder{iv.T}}, true
+			}
+		}
 		panic(unsupported("reflect function %s", name))
 	case "unsafe":
 		panic(unsupported("unsafe function %s", name))
@@ -641,6 +649,10 @@ func (w *Worker) signbitF(a *Term) *Term {
 // therefore arbitrary but fixed per term).
 func (w *Worker) fpToBits(a *Term) *Term {
 	tt := w.tt
+	if a.Op == OpFPFromBV {
+		// Go moves preserve NaN payloads: bits(frombits(b)) == b
+		return a.Args[0]
+	}
 	b := tt.UF(fmt.Sprintf("fbits%d", a.Sort.W), BVSort(a.Sort.W), a)
 	ax := tt.Same(tt.intern(Term{Op: OpFPFromBV, Sort: a.Sort, Args: []*Term{b}}), a)
 	for _, x := range tt.axioms {
